@@ -775,3 +775,229 @@ Proof.
   - intros s0 c HI HP Hd Hb. split; [apply I_started_new_one; auto; apply HP|now apply TC_new_one].
   - intros s0 dt _ HP _ _ _. exact HP.
 Qed.
+
+(* ------------------------------------------------------------------ *)
+(* C12: callbacks *)
+
+Lemma done_count_In c n l : 1 <= count (is_done c n) l <-> In (EvBatchDone c n) l.
+Proof.
+  rewrite count_pos_In. split.
+  - intros (e & Hin & He). destruct e; cbn [is_done] in He; try discriminate.
+    apply andb_prop in He. destruct He as [A B]. apply eqb_true in A. apply Z.eqb_eq in B. now subst.
+  - intros Hin. exists (EvBatchDone c n). split; [exact Hin|]. cbn [is_done].
+    now rewrite eqb_refl, Z.eqb_refl.
+Qed.
+
+Lemma cb_count_In c n l :
+  1 <= count (is_cbresp c n) l <-> exists outs err, In (EvCbResp c n outs err) l.
+Proof.
+  rewrite count_pos_In. split.
+  - intros (e & Hin & He). destruct e; cbn [is_cbresp] in He; try discriminate.
+    apply andb_prop in He. destruct He as [A B]. apply eqb_true in A. apply Z.eqb_eq in B. subst. eauto.
+  - intros (outs & err & Hin). exists (EvCbResp c n outs err). split; [exact Hin|]. cbn [is_cbresp].
+    now rewrite eqb_refl, Z.eqb_refl.
+Qed.
+
+Lemma start_count_In c n l :
+  1 <= count (is_start c n) l <-> exists h k, In (EvBatchStart c n h k) l.
+Proof.
+  rewrite count_pos_In. split.
+  - intros (e & Hin & He). destruct e; cbn [is_start] in He; try discriminate.
+    apply andb_prop in He. destruct He as [A B]. apply eqb_true in A. apply Z.eqb_eq in B. subst. eauto.
+  - intros (h & k & Hin). exists (EvBatchStart c n h k). split; [exact Hin|]. cbn [is_start].
+    now rewrite eqb_refl, Z.eqb_refl.
+Qed.
+
+(* in every reachable state, for every context id c (existing or removed) and batch n:
+   at most one start, at most one completion and only of a started batch, at most one
+   response callback and only at a completion; per context either every completion has its
+   callback or none has; for an existing context the first holds iff it is a module context,
+   batches 1..counter have been started, batches 1..counter-1 are completed, and the
+   current one is completed iff the record says so *)
+Theorem C12_callback_once cfg s : wf_cfg cfg -> Reach cfg s ->
+  forall c,
+    (forall n, 0 <= count (is_cbresp c n) (log s) <= count (is_done c n) (log s)
+               /\ count (is_done c n) (log s) <= count (is_start c n) (log s)
+               /\ count (is_start c n) (log s) <= 1)
+    /\ ((forall n, count (is_cbresp c n) (log s) = count (is_done c n) (log s))
+        \/ (forall n, count (is_cbresp c n) (log s) = 0))
+    /\ (forall rc, get c (ctxs s) = Some rc ->
+          (c_mod rc <> 0 -> forall n, count (is_cbresp c n) (log s) = count (is_done c n) (log s))
+          /\ (c_mod rc = 0 -> forall n, count (is_cbresp c n) (log s) = 0)
+          /\ (forall n, count (is_start c n) (log s)
+                        = if (1 <=? n) && (n <=? c_counter rc) then 1 else 0)
+          /\ (forall n, 1 <= n < c_counter rc -> count (is_done c n) (log s) = 1)
+          /\ (1 <= c_counter rc ->
+                count (is_done c (c_counter rc)) (log s) = if c_bdone rc then 1 else 0)).
+Proof.
+  intros Hcfg Hr c. destruct (Reach_PT cfg s Hcfg Hr) as (_ & HT). destruct (HT c) as ((G1 & G2 & _) & HE).
+  assert (S1 : forall n, count (is_start c n) (log s) = nstart c n s)
+    by (intros n; apply (count_blog c), about_start).
+  assert (S2 : forall n, count (is_done c n) (log s) = ndone c n s)
+    by (intros n; apply (count_blog c), about_done).
+  assert (S3 : forall n, count (is_cbresp c n) (log s) = ncb c n s)
+    by (intros n; apply (count_blog c), about_cbresp).
+  split; [intros n; rewrite S1, S2, S3; apply G1|]. split.
+  - destruct G2 as [G2|G2]; [left|right]; intros n; rewrite ?S2, S3; apply G2.
+  - intros rc G. destruct (HE rc G) as (E1 & E2 & _ & E4 & E5 & E6).
+    repeat split; intros; rewrite ?S1, ?S2, ?S3; auto.
+Qed.
+
+(* for a module context: a response callback for batch n is in the log iff the completion of
+   batch n is, and then exactly once *)
+Theorem C12_callback_iff_done cfg s c rc n : wf_cfg cfg -> Reach cfg s ->
+  get c (ctxs s) = Some rc -> c_mod rc <> 0 ->
+  ((exists outs err, In (EvCbResp c n outs err) (log s)) <-> In (EvBatchDone c n) (log s))
+  /\ count (is_cbresp c n) (log s) <= 1.
+Proof.
+  intros Hcfg Hr G Hm. destruct (C12_callback_once cfg s Hcfg Hr c) as (A & _ & B).
+  destruct (B rc G) as (B1 & _). specialize (B1 Hm n). destruct (A n) as (A1 & A2 & A3).
+  split; [|lia]. rewrite <- cb_count_In, <- done_count_In. lia.
+Qed.
+
+Theorem C12_no_callback_nonmodule cfg s c rc : wf_cfg cfg -> Reach cfg s ->
+  get c (ctxs s) = Some rc -> c_mod rc = 0 ->
+  forall n outs err, ~ In (EvCbResp c n outs err) (log s).
+Proof.
+  intros Hcfg Hr G Hm n outs err Hin. destruct (C12_callback_once cfg s Hcfg Hr c) as (_ & _ & B).
+  destruct (B rc G) as (_ & B2 & _). specialize (B2 Hm n).
+  assert (1 <= count (is_cbresp c n) (log s)) by (apply cb_count_In; eauto). lia.
+Qed.
+
+(* the content of the callback, per handler.  At a response: exactly when it makes
+   responses = requests; the outputs are the non-empty outputs of the batch's responses in
+   request-id order INCLUDING the response just accepted; error flag <=> fewer outputs than
+   the batch threshold.  (Stated on blog: the batch-level events of the step, newest first,
+   in front of the old ones; done_events = [EvBatchDone] or [EvBatchDone; EvCbResp].) *)
+Theorem C12_callback_respond cfg s r who code out ov ok s' :
+  wf_cfg cfg -> Inv cfg s -> h_respond cfg s r who code out ov ok = Ok s' ->
+  exists rc, get (rid_ctx r) (ctxs s) = Some rc /\
+    blog s' =
+    (if c_bresp rc + 1 =? c_breq rc
+     then done_events (rid_ctx r) rc
+            (batch_outputs (set_resps s (set r (mkResp who (c_cons rc) code out) (resps s)))
+               (rid_ctx r) (c_counter rc))
+     else []) ++ blog s.
+Proof. exact (respond_blog cfg s r who code out ov ok s'). Qed.
+
+(* at the expiry: exactly when the batch is not yet completed; the outputs are those of the
+   responses stored at that moment *)
+Theorem C12_callback_expire_one cfg s c rc :
+  Inv cfg s -> get c (ctxs s) = Some rc ->
+  blog (expire_one cfg s c)
+  = (if fin_b rc then [EvCtxRemoved c] else [])
+    ++ (if c_bdone rc then [] else done_events c rc (batch_outputs s c (c_counter rc)))
+    ++ blog s.
+Proof. exact (expire_one_blog cfg s c rc). Qed.
+
+(* no other operation emits a completion or a response callback *)
+Theorem C12_callback_msg_other cfg s o s' :
+  wf_cfg cfg -> Inv cfg s -> wf_op s o -> (forall dt, o <> OEndBlock dt) ->
+  handle cfg s o = Ok s' ->
+  (forall r who code out ov ok, o <> ORespond r who code out ov ok) ->
+  blog s' = blog s
+  \/ exists c, blog s' = EvCtxCreated c :: blog s.
+Proof.
+  intros Hcfg HI Hwf Hne H Hnr.
+  destruct o; try (left; exact (blog_msg_simple _ _ _ _ H I)); cbn [handle] in H.
+  - unfold h_call in H. inv_ok H. apply create_context_spec in H.
+    destruct H as (capv & _ & _ & _ & ->). right. exists c. unfold created. blog_tac.
+  - apply create_context_spec in H.
+    destruct H as (capv & _ & _ & _ & ->). right. exists c. unfold created. blog_tac.
+  - exfalso. eapply Hnr. reflexivity.
+  - apply h_pause_spec in H. destruct H as (rc & _ & _ & _ & _ & _ & ->). left. reflexivity.
+  - apply h_start_spec in H. destruct H as (rc & _ & _ & _ & _ & ->). left.
+    unfold started. destruct (negb _ && negb _); reflexivity.
+  - apply h_kill_spec in H. destruct H as (rc & _ & _ & _ & _ & ->). left. reflexivity.
+  - apply h_update_ctx_spec in H. destruct H as (rc & capo & _ & _ & _ & _ & _ & _ & _ & _ & _ & ->).
+    left. reflexivity.
+  - exfalso. eapply Hne. reflexivity.
+Qed.
+
+Theorem C12_callback_new_one cfg s c rc : get c (ctxs s) = Some rc ->
+  (d5 rc = true /\ blog (new_one cfg s c) = EvCtxRemoved c :: blog s)
+  \/ (d5 rc = false /\ c_state rc = Running /\ exists n,
+        blog (new_one cfg s c) = EvBatchStart c (c_counter rc + 1) (height s) n :: blog s
+        /\ get c (ctxs (new_one cfg s c)) = Some (bump rc n))
+  \/ (d5 rc = false /\ c_state rc = Running
+      /\ blog (new_one cfg s c) = (if c_mod rc =? 0 then [] else [EvCbState c]) ++ blog s
+      /\ get c (ctxs (new_one cfg s c)) = Some (paused_ctx rc))
+  \/ (c_state rc <> Running /\ blog (new_one cfg s c) = blog s
+      /\ get c (ctxs (new_one cfg s c)) = Some rc).
+Proof. exact (new_one_blog cfg s c rc). Qed.
+
+(* ---- state callback ---- *)
+
+Definition ncbstate (c : CtxId) (s : State) : Z := count (is_cbstate c) (log s).
+
+Lemma ncbstate_blog c s : ncbstate c s = count (is_cbstate c) (blog s).
+Proof. apply (count_blog c), about_cbstate. Qed.
+
+Lemma count_cbstate_done c c0 rc outs : count (is_cbstate c) (done_events c0 rc outs) = 0.
+Proof.
+  unfold done_events. rewrite count_cons. cbn [is_cbstate].
+  destruct (c_mod rc =? 0); rewrite ?count_cons, ?count_nil; cbn [is_cbstate]; lia.
+Qed.
+
+(* the state callback is emitted exactly when the new-batch handler pauses a running MODULE
+   context for insufficient funds, once; by nothing else *)
+Theorem C12_state_callback cfg :
+  wf_cfg cfg ->
+  (forall s o s' c, Inv cfg s -> wf_op s o -> (forall dt, o <> OEndBlock dt) ->
+     handle cfg s o = Ok s' -> ncbstate c s' = ncbstate c s)
+  /\ (forall s c0 c, Inv cfg s -> In (height s, c0) (expq s) -> height s < HEIGHT_BOUND ->
+        ncbstate c (expire_one cfg s c0) = ncbstate c s)
+  /\ (forall s c0 rc c, Inv cfg s -> In (height s, c0) (newq s) -> get c0 (ctxs s) = Some rc ->
+        let s' := new_one cfg s c0 in
+        let paused_now :=
+          is_state rc Running
+          && match get c0 (ctxs s') with Some rc' => is_state rc' Paused | None => false end in
+        ncbstate c s' = ncbstate c s
+                        + (if eqb c c0 && paused_now && negb (c_mod rc =? 0) then 1 else 0)).
+Proof.
+  intros Hcfg. split; [|split].
+  - intros s o s' c HI Hwf Hne H. rewrite !ncbstate_blog.
+    destruct o; try (rewrite (blog_msg_simple _ _ _ _ H I); reflexivity).
+    + destruct (C12_callback_msg_other _ _ _ _ Hcfg HI Hwf Hne H) as [->|(c1 & ->)];
+        [intros; discriminate|reflexivity|rewrite count_cons; cbn [is_cbstate]; lia].
+    + destruct (C12_callback_msg_other _ _ _ _ Hcfg HI Hwf Hne H) as [->|(c1 & ->)];
+        [intros; discriminate|reflexivity|rewrite count_cons; cbn [is_cbstate]; lia].
+    + cbn [handle] in H. destruct (respond_blog _ _ _ _ _ _ _ _ _ Hcfg HI H) as (rc & _ & ->).
+      rewrite count_app. destruct (_ =? _); [rewrite count_cbstate_done|rewrite count_nil]; lia.
+    + destruct (C12_callback_msg_other _ _ _ _ Hcfg HI Hwf Hne H) as [->|(c1 & ->)];
+        [intros; discriminate|reflexivity|rewrite count_cons; cbn [is_cbstate]; lia].
+    + destruct (C12_callback_msg_other _ _ _ _ Hcfg HI Hwf Hne H) as [->|(c1 & ->)];
+        [intros; discriminate|reflexivity|rewrite count_cons; cbn [is_cbstate]; lia].
+    + destruct (C12_callback_msg_other _ _ _ _ Hcfg HI Hwf Hne H) as [->|(c1 & ->)];
+        [intros; discriminate|reflexivity|rewrite count_cons; cbn [is_cbstate]; lia].
+    + destruct (C12_callback_msg_other _ _ _ _ Hcfg HI Hwf Hne H) as [->|(c1 & ->)];
+        [intros; discriminate|reflexivity|rewrite count_cons; cbn [is_cbstate]; lia].
+    + exfalso. eapply Hne. reflexivity.
+  - intros s c0 c HI Hdue Hb. rewrite !ncbstate_blog.
+    destruct (due_ctx _ _ _ HI Hdue) as (rc & Grc & _).
+    rewrite (expire_one_blog cfg s c0 rc HI Grc), !count_app.
+    assert (A : count (is_cbstate c) (if fin_b rc then [EvCtxRemoved c0] else []) = 0)
+      by (destruct (fin_b rc); reflexivity).
+    assert (B : count (is_cbstate c)
+                  (if c_bdone rc then [] else done_events c0 rc (batch_outputs s c0 (c_counter rc))) = 0)
+      by (destruct (c_bdone rc); [reflexivity|apply count_cbstate_done]).
+    lia.
+  - intros s c0 rc c HI Hdue Grc s' paused_now. subst s' paused_now. rewrite !ncbstate_blog.
+    destruct (new_one_spec cfg s c0 HI Hdue) as (rc0 & Erc0 & _ & _ & _ & _ & _ & _ & Hcase).
+    assert (rc0 = rc) by congruence. subst rc0.
+    destruct (new_one_blog cfg s c0 rc Grc)
+      as [(Hd & ->)|[(Hd & Hr & n & -> & ->)|[(Hd & Hr & -> & ->)|(Hr & -> & ->)]]].
+    + destruct Hcase as [(_ & -> & _)|[(Hx & _)|[(Hx & _)|(Hx & _)]]]; try congruence.
+      * rewrite count_cons. cbn [is_cbstate]. rewrite andb_false_r, andb_false_r. cbn [andb]. lia.
+      * unfold d5 in Hd. apply is_state_false in Hx. rewrite Hx in Hd. discriminate.
+    + rewrite count_cons. cbn [is_cbstate].
+      assert (E : is_state (bump rc n) Paused = false) by (apply is_state_false; cbn; congruence).
+      rewrite E, andb_false_r, andb_false_r. cbn [andb]. lia.
+    + apply is_state_true in Hr. rewrite Hr.
+      assert (E : is_state (paused_ctx rc) Paused = true) by (apply is_state_true; reflexivity).
+      rewrite E. cbn [andb]. rewrite andb_true_r, count_app.
+      destruct (c_mod rc =? 0); cbn [negb]; rewrite ?andb_false_r, ?andb_true_r.
+      * rewrite count_nil. lia.
+      * rewrite count_cons, count_nil. cbn [is_cbstate]. destruct (eqb_spec c0 c) as [->|Hn]; [rewrite eqb_refl; lia|]. destruct (eqb_spec c c0); [congruence|lia].
+    + apply is_state_false in Hr. rewrite Hr. cbn [andb]. rewrite andb_false_r. cbn [andb]. lia.
+Qed.
